@@ -29,9 +29,12 @@ def run(tier, acc):
     acc.rule = ("M: TLC runs the decoder machine of Serialize.tla (op stack / value stack, errors of an operation ignored as in the "
                 "code) step by step on every byte string of <= MaxLen bytes over a 35-byte alphabet of format-boundary bytes "
                 "(and over all 256 bytes for length <= 2), asserting DecoderSound against the reference decoder, plus RoundTrip on "
-                "a tree set and the prefix classes on abstract lengths up to 2^31-1. R: every enumerated string is replayed "
+                "a tree set and the prefix classes on abstract lengths up to 2^31-1; Casts.tla is the arithmetic the prefix goes "
+                "through (int_from_bytes: 4-byte words from the right, leading bytes above them), asserted positional for every "
+                "length 0..8 with the weight-restarting variant refuted, its 166 probe vectors replayed into the real function. R: every enumerated string is replayed "
                 "through sexp_from_stream and clvmr::serde::node_from_bytes. T: encodings of random trees and of atoms at every "
-                "length class (incl. 1 MiB +-1), truncations at every offset, bit flips, trailing garbage, over-long prefixes, "
+                "length class (incl. 1 MiB +-1), truncations at every offset, bit flips, trailing garbage, over-long prefixes, 5- and 6-byte prefixes announcing 2^32 .. 2^42 bytes "
+                "with every size byte hot in turn, "
                 "validated by Trace_Serialize. non-trivial = distinct inputs the classic decoder accepted / distinct values encoded")
     acc.assumptions = ["clvmr::serde::{node_to_bytes,node_from_bytes} are the consensus (de)serialiser",
                        "contents of multi-MiB atoms are compared by digest; the trace carries only length and prefix"]
@@ -39,6 +42,22 @@ def run(tier, acc):
     if not r.ok:
         raise core.ToolError(f"MC_Serialize props: {r.invariant_violated}\n{r.output[-2000:]}")
     acc.add_tlc("MC_Serialize[RoundTrips,PrefixOk]", r)
+    # the arithmetic the length prefix goes through (casts.rs int_from_bytes): positional weights on the model, the
+    # variant whose byte loop restarts at weight 1 refuted, every probe vector through the real function
+    r = core.run_tlc("MC_Casts", "MC_Casts_restart.cfg", "C08_casts_restart", workers=1, timeout=300, coverage=False, expect_failure=True)
+    if r.ok or "does not weight byte positions" not in r.output:
+        raise core.ToolError("Casts: the variant that restarts the weight was not refuted (vacuous assertion)")
+    r = core.run_tlc("MC_Casts", "MC_Casts_q.cfg", "C08_casts", workers=1, timeout=300, coverage=False)
+    if not r.ok:
+        raise core.ToolError(f"MC_Casts: {r.invariant_violated}\n{r.output[-2000:]}")
+    acc.add_tlc("MC_Casts", r)
+    out = os.path.join(core.BUILD, "C08_casts.report.json")
+    core.run_vh(["replay-casts", "--in", r.out_path, "--out", out])
+    rp = core.load_json(out)
+    if rp["evaluations"] < 100:
+        raise core.ToolError("MC_Casts emitted too few vectors")
+    acc.add_report(rp)
+    os.remove(r.out_path)
     _gen_replay(acc, "b3", 3, "boundary")
     _gen_replay(acc, "f2", 2, "full")
     if tier == "thorough":
